@@ -6,6 +6,8 @@ oracle_c18 — line protocol:
   `tx <beginOk:0|1> <commitOk:0|1> <rollbackOk:0|1> <step>*`   step ::= ok | e<k> | p<k> | pn
       → `events=<e,…> result=<r>`
   `combine <step>*` → `ran=<n> out=<step>`
+  `soak <n>` (n ≤ 200000) → the output of `tx 1 1 1 ok p1 ok` after n failing transactions in the same process
+  `par <n> tx …` (1 ≤ n ≤ 64) → the output of the `tx` line (n concurrent calls, each on its own connection)
 The configuration is the one regenerated from the source (`Nv.Gen.C18.cfg`).
 -/
 open Nv Nv.C18
@@ -37,18 +39,30 @@ def showResult : Result → String
 def showStep : StepOutcome → String
   | .ok => "ok" | .err e => s!"e{e}" | .panic v => s!"p{v}" | .panicNil => "pn"
 
-def step (_ : Unit) (line : String) : Unit × String :=
-  match words line with
+def stepW : List String → String
   | "tx" :: b :: c :: r :: steps =>
     match parseBool b, parseFinish c, parseFinish r, parseSteps steps with
     | some b, some c, some _, some steps =>
       let out := transact Nv.Gen.C18.cfg b c steps
-      ((), s!"events={",".intercalate (out.1.map showEvent)} result={showResult out.2}")
-    | _, _, _, _ => ((), "bad-op")
+      s!"events={",".intercalate (out.1.map showEvent)} result={showResult out.2}"
+    | _, _, _, _ => "bad-op"
   | "combine" :: steps =>
     match parseSteps steps with
-    | some steps => ((), s!"ran={combineRan steps} out={showStep (combine steps)}")
+    | some steps => s!"ran={combineRan steps} out={showStep (combine steps)}"
+    | none => "bad-op"
+  | _ => "bad-op"
+
+/-- `par <n> tx …`: n concurrent calls on n connections — calls share no state, so each behaves like the single call. -/
+def step (_ : Unit) (line : String) : Unit × String :=
+  match words line with
+  | "par" :: n :: "tx" :: rest =>
+    match n.toNat? with
+    | some k => if 1 ≤ k ∧ k ≤ 64 then ((), stepW ("tx" :: rest)) else ((), "bad-op")
     | none => ((), "bad-op")
-  | _ => ((), "bad-op")
+  | ["soak", n] =>
+    match n.toNat? with
+    | some k => if k ≤ 200000 then ((), stepW ["tx", "1", "1", "1", "ok", "p1", "ok"]) else ((), "bad-op")
+    | none => ((), "bad-op")
+  | ws => ((), stepW ws)
 
 def main : IO Unit := oracleMain step ()
